@@ -26,3 +26,19 @@ Example C04_signature_example :
   signature_of (s2l "None") [(s2l "a", None); (s2l "b", Some (s2l "5"))]
   = [(s2l "a", Some (s2l "None")); (s2l "b", Some (s2l "5"))].
 Proof. vm_compute. reflexivity. Qed.
+
+(* ---- the class emitter (Model/ClassFmt.v, compared with cdd.class_.emit / cdd.pydantic.emit on generated classes each run): for
+   EVERY description the body of the emitted class has exactly one annotated assignment per typed attribute, in order, with the
+   described annotation and the described default -- and no value where none is described. *)
+From CDD Require ClassFmt ClassBodyProofs.
+Theorem C04_class_body_carries : forall doc ps,
+  ClassFmt.k_body (ClassFmt.emit_class doc ps) = map ClassBodyProofs.item_of (filter ClassBodyProofs.typed ps).
+Proof. exact ClassBodyProofs.class_body_carries. Qed.
+Print Assumptions C04_class_body_carries.
+Example C04_class_body_example :
+  ClassFmt.k_body (ClassFmt.emit_class (s2l "Config")
+     [(s2l "size", {| ClassFmt.cp_typ := Some (s2l "int"); ClassFmt.cp_doc := Some (s2l "how big"); ClassFmt.cp_default := Some (s2l "5") |});
+      (s2l "label", {| ClassFmt.cp_typ := Some (s2l "Optional[str]"); ClassFmt.cp_doc := None; ClassFmt.cp_default := None |})])
+  = [{| ClassFmt.b_name := s2l "size"; ClassFmt.b_typ := s2l "int"; ClassFmt.b_value := Some (s2l "5") |};
+     {| ClassFmt.b_name := s2l "label"; ClassFmt.b_typ := s2l "Optional[str]"; ClassFmt.b_value := None |}].
+Proof. exact ClassBodyProofs.class_body_example. Qed.
